@@ -42,6 +42,9 @@ def gen_ops():
     add("run_typed_fields", 'add_key(rx, fi + fi)\nadd_key(ry, ff + 1)\nadd_key(rz, fs + "s")\nif fb { add_key(rb, fb) }\nprobe(fi, ff, fs, fb, fn, tg)', pt=STD_PT)
     # a decoded literal is fresh on every evaluation and every run: its result is changed in place, the script is run again
     add("run_loadjson_mutate", 'a = load_json("[1,\\"a\\",null]")\nprobe(a)\na[0] = fi\na[2] = fs\nadd_key(lj, a)\nm = {"k": [0]}\nprobe(m)\nm["k"][0] = fi', pt=STD_PT)
+    # a load rejected at an offender inside loop bodies, and a load that must be rejected for a stray break / continue
+    add("check_err_in_loop", 'for i = 0; i < 3; i = i + 1 {\nfor v in [1] {\nnosuchfn(i)\n}\n}')
+    add("check_err_stray_break", 'add_key(a, 1)\nif true {\nbreak\n}\nadd_key(b, 1)')
     # the same grok text under different local definitions of the alias it names, and with no definition at all
     add("run_grok_digits", 'add_pattern("hw", "\\\\d+")\nok = grok(fs, "%{hw:w}")\nprobe(ok, w)', pt={"meas": "m", "tags": {}, "fields": {"fs": "abc 123"}})
     add("run_grok_letters", 'add_pattern("hw", "[a-c]+")\nok = grok(fs, "%{hw:w}")\nprobe(ok, w)', pt={"meas": "m", "tags": {}, "fields": {"fs": "abc 123"}})
